@@ -7,6 +7,7 @@ objects.
 import asyncio
 import contextlib
 import logging
+import struct
 from collections import deque
 from collections.abc import Awaitable, Callable, Coroutine, Iterable
 from dataclasses import dataclass
@@ -444,7 +445,7 @@ class AirTouchSocket(Generic[comms.Hdr]):
                 else:
                     self._log_dropped_message(entry, "expired")
 
-        except (ValueError, NotImplementedError):
+        except (ValueError, NotImplementedError, struct.error):
             # This indicates an error encoding this message.
             # We shouldn't retry this message, but the connection doesn't need
             # to be reset.
